@@ -622,7 +622,7 @@ def report(prop, cfg, args, results, seed, t0, th, unsafe_hits, exp_s, scratch, 
     # bounded stand-in on the REAL interpreter (labelled bounded, never counted as proved): always in the thorough tier, and
     # whenever the proof is undecided; it can raise an alarm only through a concrete failing input of the real code
     bounded = None
-    if (undec and not viol) or args.tier == 'thorough':
+    if (undec and not viol) or args.tier == 'thorough' or cfg.get('bounded', 'quick') == 'quick':
         try:
             import replay_search
             if prop in replay_search.SUITES or prop == 'C14':
